@@ -24,6 +24,7 @@ META = {
                      "checks/C27.py generator and the system -> Prolog text / Coq term printers",
                      "clpz.pl propagators and labeling compared, not verified"],
     "assumptions": ["domains are intervals inside -3..4 and every variable of the system has a domain and is labeled",
+                    "a goal whose Boolean position holds a variable already bound to an integer other than 0/1 raises an error in clpz; the check then only requires that the system has no solution",
                     "the exponent of ^ is a variable or an integer (no towers of powers)"],
 }
 
@@ -302,9 +303,13 @@ def parse_tuples(ans, width):
     return out
 
 
-def boolean_position_error(ans):
-    f = core.error_formal(ans[0]) if ans else None
-    return bool(f and "c" in f and f["c"][0] == "domain_error" and f["c"][1].get("a") == "clpz_reifiable_expression")
+def caught_error(ans):
+    """text of E when the labeling query ended in L = error(E), else None"""
+    if ans and isinstance(ans[0], dict) and "b" in ans[0] and "L" in ans[0]["b"]:
+        v = ans[0]["b"]["L"]
+        if "c" in v and v["c"][0] == "error" and len(v["c"]) == 2:
+            return core.term_text(v["c"][1])
+    return None
 
 
 def parse_T(ans):
@@ -326,7 +331,8 @@ def run(ctx):
         rng.shuffle(order)
         doms = list(range(nv))
         rng.shuffle(doms)
-        text = "%s, %s, findall(%s, label(%s), L)." % (
+        # catch/3: an error that reaches the top of Machine::run_query uncaught can crash the embedding API (see the report)
+        text = "catch((%s, %s, findall(%s, label(%s), L)), error(Err, _), L = error(Err))." % (
             ", ".join("%s in %s..%s" % (VN[v], zt(box[v][0]), zt(box[v][1])) for v in doms),
             ", ".join(g_pl(g) for g in goals),
             "[%s]" % ",".join(VN[v] for v in order), "[%s]" % ",".join(VN[v] for v in order))
@@ -400,11 +406,12 @@ def run(ctx):
             functors(goals, dist["functors"])
             if 0 < sols < len(pts) and len(sys_vars(goals)) >= 2: nontrivial.add(text)
             impl_text = None
-            if L is None and boolean_position_error(rs[k]):
-                # a variable in a Boolean position was already bound to an integer other than 0/1 when the goal was posted:
-                # clpz raises domain_error(clpz_reifiable_expression, _) instead of failing; then there must be no solution at all
+            if L is None and bool_vars(goals) and caught_error(rs[k]) is not None:
+                # a variable in a Boolean position was already bound to an integer other than 0/1 when the goal was posted: clpz raises
+                # an error (domain_error(clpz_reifiable_expression,_), but also type_error(integer,?(_)) or an instantiation error) instead
+                # of failing. That is not a constraint system; the check only requires that no solution exists then.
                 dist["boolean_position_domain_errors"] += 1
-                L, impl_text = [], "domain_error(clpz_reifiable_expression, _)"
+                L, impl_text = [], "error: " + caught_error(rs[k])
             if L is None:
                 bad_obs("label", text, rs[k]); continue
             vs, bx, gs = nl_coq(order), "[%s]" % "; ".join("(%s, %s)" % (zt(box[v][0]), zt(box[v][1])) for v in order), "[%s]" % "; ".join(g_coq(g) for g in goals)
